@@ -166,6 +166,13 @@ def gen_c10_case(r, kind=None):
         c.faults = [[q, i, en] for q in ('open', 'stat', 'fstat', 'read', 'scandir')] if prim == 'all' else [[prim, i, en]]
         c.meta['fault'] = [prim, i, en, n['k']]
         pre = [p for p in pre if p[0] != 'verify' or p[2] in (1, 2, 3, 4)]
+        if r.random() < 0.35:
+            # the creating front end (`gemato create`) on a tree that has Manifests already: an unreadable one is not "none yet"
+            c.allow_create = True
+            c.meta['create_mode'] = True
+            if r.random() < 0.6 and t.lookup('Manifest') is not None:
+                c.faults = [[r.choice(['open', 'mopen', 'read', 'fstat']), t.lookup('Manifest'), en]]
+                c.meta['fault'] = [c.faults[0][0], c.faults[0][1], en, 'f']
     elif kind == 'badpath':
         upd = ['update', r.choice(['absent', 'absent/deeper'] + files[:2]), [], []]
     elif kind == 'xdev':
